@@ -641,7 +641,10 @@ impl LyNative for ListSort {
 
     hooks.pop_roots(1);
 
-    Call::Ok(val!(list))
+    match failure {
+      Some(failure) => failure,
+      None => Call::Ok(val!(list)),
+    }
   }
 }
 
